@@ -121,6 +121,7 @@ theorem trunc_eq_floor {q : Rat} (hq : 0 ≤ q) : q.num.tdiv q.den = q.floor := 
 /-- values of the rounded arithmetic: extended rationals (the wrapper carries the rounding function in its type) -/
 structure Rnd (fl : Rat → Rat) where
   v : ERat
+  deriving DecidableEq
 
 /-- round a finite value, keep nan / ±inf -/
 def rd (fl : Rat → Rat) : ERat → ERat
@@ -314,6 +315,39 @@ theorem distRNew_close (h : RoundingLaw fl u) (hu : 8 * u ≤ 1) {K m ha hb ja j
     have pe : ¬ 0 < m + ha + hb + ja + jb := by grind
     rw [if_neg pa, if_neg pe]
     refine ⟨⟨?_, ?_⟩, ⟨?_, ?_⟩, ⟨?_, ?_⟩⟩ <;> grind
+
+/-- Without any margin: the seconds value lies in [0, 9K]. -/
+theorem distRNew_range (h : RoundingLaw fl u) (hu : 8 * u ≤ 1) {K m ha hb ja jb : Rat} (hK : 0 ≤ K)
+    (hmag : Magnitudes K m ha hb ja jb) :
+    0 ≤ distRNew fl m ha hb ja jb ∧ distRNew fl m ha hb ja jb ≤ 9 * K := by
+  obtain ⟨hm, hha, hhb, hja, hjb⟩ := hmag
+  have he : u * (8 * K) ≤ K := by
+    have := Rat.mul_le_mul_of_nonneg_right hu hK
+    grind
+  have he0 : 0 ≤ u * (8 * K) := Rat.mul_nonneg h.u_nonneg (by grind)
+  have c1 := fl_close h (x := ha + hb) (B := 8 * K) (by grind) (by grind)
+  have c2 := fl_close h (x := m + fl (ha + hb)) (B := 8 * K) (by grind) (by grind)
+  have c3 := fl_close h (x := ja + jb) (B := 8 * K) (by grind) (by grind)
+  have c4 := fl_close h (x := fl (m + fl (ha + hb)) + fl (ja + jb)) (B := 8 * K) (by grind) (by grind)
+  have hu1 : u ≤ 1 := by grind
+  have rn : 0 ≤ fl (m + fl (ha + hb)) :=
+    fl_nonneg h hu1 (Rat.add_nonneg hm.1 (fl_nonneg h hu1 (Rat.add_nonneg hha.1 hhb.1)))
+  unfold distRNew
+  by_cases pa : 0 < fl (fl (m + fl (ha + hb)) + fl (ja + jb))
+  · rw [if_pos pa]; constructor <;> grind
+  · rw [if_neg pa]; constructor <;> grind
+
+/-- the nanosecond value of a seconds value in [0, 9K], K ≤ 10^8: non-negative, no int64 overflow -/
+theorem ns_nonneg (h : RoundingLaw fl u) (hu : 8 * u ≤ 1) {K x : Rat} (hK : 0 ≤ K) (hK8 : K ≤ 100000000)
+    (hx : 0 ≤ x ∧ x ≤ 9 * K) : 0 ≤ ERat.toInt64 (.fin (fl (x * 1000000000))) := by
+  have hu1 : u ≤ 1 := by grind
+  have huK : 0 ≤ u * K := Rat.mul_nonneg h.u_nonneg hK
+  have huK2 : u * K ≤ 1 * K := Rat.mul_le_mul_of_nonneg_right hu1 hK
+  have cx := fl_close h (x := x * 1000000000) (B := 9 * K * 1000000000) (by grind) (by grind)
+  have nx : 0 ≤ fl (x * 1000000000) := fl_nonneg h hu1 (by grind)
+  have bx : fl (x * 1000000000) < 9223372036854775807 := by grind
+  rw [toInt64_fin_nonneg nx bx]
+  exact Rat.le_floor_iff.2 (by simpa using nx)
 
 /-- **1 ns accuracy.** A non-negative seconds value within 32·u·K of an exact value: scaled by 10^9, rounded and
 truncated it is within 1 of the truncated exact nanoseconds, when 100·u·K·10^9 ≤ 1. -/
